@@ -178,6 +178,13 @@ def structural(exc):
     return False
 
 
+def _col(letters):
+    try:
+        return wbspec.column_index_from_string(letters.upper())
+    except ValueError:
+        return 0
+
+
 def judge_formulas(ctx, items, tag):
     """items: [(text, how)] - each becomes the entry cell of its own translation"""
     r = ctx.r
@@ -199,7 +206,12 @@ def judge_formulas(ctx, items, tag):
             tmon.drain()
             try:
                 base_cells = tmon.cells_set
-                with StepBudget(STEP_BUDGET, lambda: PER_CELL * (tmon.cells_set - base_cells)) as sb:
+                # linear work is no hang: the budget earns steps per cell the translation registers and per COLUMN a whole-column span
+                # of the text names (T:RUE - a mutant of TRUE - is 12 000 columns, each looked at once although none holds a cell)
+                span = sum(abs(_col(m_.group(2)) - _col(m_.group(1))) + 1
+                           for m_ in re.finditer(r'(?<![A-Za-z0-9])\$?([A-Za-z]{1,3}):\$?([A-Za-z]{1,3})(?![A-Za-z0-9(])', text)
+                           if max(len(m_.group(1)), len(m_.group(2))) <= 3 and all(1 <= _col(x) <= 18278 for x in m_.groups()))
+                with StepBudget(STEP_BUDGET, lambda: PER_CELL * (tmon.cells_set - base_cells) + 400 * span) as sb:
                     t = pipeline.translate(path, entry=pipeline.entry_cell('S1', a))
             except StepBudgetExceeded as e:
                 r.ev()
